@@ -699,3 +699,12 @@ V("C20-drops-zero-terms", "C20", ["C20.R1"], [(FORMULA, "                differe
 V("C20-zero-becomes-one", "C20", ["C20.R2"], [(CALC, '            return Term({Factor("0", eval_method="literal")})', '            return Term({Factor("1", eval_method="literal")})')])
 V("C20-empty-becomes-zero", "C20", ["C20.R2"], [(CALC, '    return Term(factors or {Factor("1", eval_method="literal")})', '    return Term(factors or {Factor("0", eval_method="literal")})')])
 V("C20-keeps-affected", "C20", ["C20.R2"], [(CALC, "            (factors - affected_factors)\n            | (_differentiate_factors", "            factors\n            | (_differentiate_factors")])
+
+# ----------------------------------------------------------------------------------------- C01.R10
+PUTILS = "formulaic/parser/utils.py"
+V("C01-replace-any-kind", "C01", ["C01.R10"], [(PUTILS, "        if kind and token.kind is not kind or token.token != token_to_replace:", "        if kind and token.kind is not kind and token.token != token_to_replace:")])
+V("C01-replace-demorgan-equiv", "C01", [], [(PUTILS, "        if kind and token.kind is not kind or token.token != token_to_replace:", "        if token.token != token_to_replace or (kind and token.kind is not kind):")])
+V("C01-join-ignores-set", "C01", ["C01.R10"], [(PUTILS, "                        and next_token.token not in no_join_for_operators", "                        and next_token.token in no_join_for_operators")])
+V("C01-insert-anywhere", "C01", ["C01.R10"], [(PUTILS, "            if m and m.span()[1] == len(split_token.token):", "            if m:")])
+V("C01-merge-reversed", "C01", ["C01.R10"], [(PUTILS, "token=pooled_token.token + token.token", "token=token.token + pooled_token.token")])
+V("C01-merge-no-flush", "C01", ["C01.R10"], [(PUTILS, "    if pooled_token:\n        yield pooled_token\n", "")])
